@@ -149,6 +149,16 @@ CLAIMED["C20"] = {
     "design_ref": "7 (C20)",
 }
 
+def counted(pid, text):
+    """the leading 'N theorems' (and '(K partial by name)') of a text are counted from coq/props/<pid>.v"""
+    import re
+    src = open(os.path.join(os.path.dirname(os.path.abspath(__file__)), "coq", "props", pid + ".v")).read()
+    names = re.findall(r"^Theorem\s+(\w+)", src, re.M)
+    text = re.sub(r"^\d+ theorems", "%d theorems" % len(names), text)
+    text = re.sub(r"\(\d+ partial by name\)", "(%d partial by name)" % sum(1 for n in names if "partial" in n), text)
+    return text
+
+
 def main():
     checks = []
     for pid in ALL:
@@ -162,7 +172,7 @@ def main():
             "evidence_file": "/verif/evidence/%s.json" % pid,
             "replay_cmd_template": "./check %s --replay {path}" % pid,
             "engine": "coq",
-            "level_claimed": {"category": "proof", "text": c["text"], "design_ref": c["design_ref"]},
+            "level_claimed": {"category": "proof", "text": counted(pid, c["text"]), "design_ref": c["design_ref"]},
             "level_note": c["note"],
             "technique": c["technique"],
         })
